@@ -160,7 +160,12 @@ impl MoveGen {
     /// Never, ever, iterate this move
     pub fn remove_move(&mut self, chess_move: ChessMove) -> bool {
         for x in 0..self.moves.len() {
-            if self.moves[x].src == chess_move.source {
+            // a pawn can own two entries (its en-passant capture is a separate one), and a
+            // promotion entry only holds promotion moves
+            if self.moves[x].src == chess_move.source
+                && self.moves[x].moves.contains(chess_move.dest)
+                && self.moves[x].promotion == chess_move.piece.is_some()
+            {
                 self.moves[x].moves -= chess_move.dest;
                 return true;
             }
